@@ -137,24 +137,31 @@ def _normalize_parsed_value_elements(
 
     if hasattr(parsed, "information"):
         notification_body = parsed.information.notification_body
-        dictionary[obis_map.FIELD_METER_DATETIME] = parsed.information.DateTime.datetime
+        if hasattr(parsed.information.DateTime, "datetime"):
+            dictionary[
+                obis_map.FIELD_METER_DATETIME
+            ] = parsed.information.DateTime.datetime
     else:
         notification_body = parsed
 
     list_items = notification_body.list_items
 
-    current_list_names: list[str] = next(
-        (x for x in _field_order_lists if len(x) == len(list_items)), []
+    current_list_names: list[str] | None = next(
+        (x for x in _field_order_lists if len(x) == len(list_items)), None
     )
+    if current_list_names is None:
+        raise ValueError(f"Unexpected number of list items: {len(list_items)}")
 
     for measure in list_items:
         element_name = current_list_names[measure.index]
 
         if element_name == obis_map.FIELD_METER_DATETIME:
+            if not hasattr(measure.value, "datetime"):
+                raise ValueError("Expected date-time list item.")
             dictionary[element_name] = measure.value.datetime
         else:
             scale = _FIELD_SCALING.get(element_name, None)
-            if scale:
+            if scale and isinstance(measure.value, int):
                 scaled_value = round(measure.value * (10**scale), abs(scale))
                 dictionary[element_name] = scaled_value
             else:
@@ -186,7 +193,7 @@ def _normalize_parsed_obis_elements(
             dictionary[element_name] = measure.value.datetime
         else:
             scale = _FIELD_SCALING.get(element_name, None)
-            if scale:
+            if scale and isinstance(measure.value, int):
                 scaled_value = round(measure.value * (10**scale), abs(scale))
                 dictionary[element_name] = scaled_value
             else:
